@@ -418,6 +418,39 @@ static void inplace_all()
     R.part("hash and CRC functions called again with the same pointers after the message (and the table) was edited in place, straight-line code at -O2", n, n);
 }
 
+// ---------------------------------------------------------------- one chunk of more than 4 GiB
+// The length parameter is a size value: a chunk of 2^32 + 5 bytes is hashed byte by byte like any other.  The chunk is an untouched
+// (all-zero, never resident) anonymous mapping with a few bytes set, so the expected value has a closed form:
+// v0 * K^n + sum b_i * K^(n-1-i) (mod 2^32).  Skipped, and said so, if the address space cannot be reserved.
+static void hash_huge()
+{
+#if !defined(__SANITIZE_ADDRESS__)
+    const size_t n = ((size_t)1 << 32) + 5;
+    unsigned char *p = (unsigned char *)mmap(nullptr, n, PROT_READ | PROT_WRITE, MAP_PRIVATE | MAP_ANONYMOUS | MAP_NORESERVE, -1, 0);
+    if (p == MAP_FAILED) { vx::info_str("hash-huge-chunk", "the address space for a chunk of 2^32+5 bytes could not be reserved: part skipped"); return; }
+    const size_t pos[4] = {0, 4097, ((size_t)1 << 32) - 1, n - 2};
+    const unsigned char val[4] = {7, 0x80, 3, 0xFF};
+    for (int i = 0; i < 4; ++i) { p[pos[i]] = val[i]; }
+    auto powm = [](uint32_t k, uint64_t e) { uint32_t r = 1; while (e) { if (e & 1) { r *= k; } k *= k; e >>= 1; } return r; };
+    uint64_t done = 0;
+    for (uint32_t v0 : {0u, 0x9E3779B9u})
+    {
+        for (int f = 0; f < 2; ++f)
+        {
+            uint32_t K = f ? 65599u : 131u;
+            uint32_t want = v0 * powm(K, n);
+            for (int i = 0; i < 4; ++i) { want += (uint32_t)val[i] * powm(K, n - 1 - pos[i]); }
+            uint32_t got = f ? a_hash_sdbm_(p, n, v0) : a_hash_bkdr_(p, n, v0);
+            ++done;
+            if (got != want) { R.viol(std::string(f ? "hash_sdbm_" : "hash_bkdr_") + "|huge-chunk", std::string("a_") + (f ? "hash_sdbm_" : "hash_bkdr_") + " of one chunk of 2^32+5 bytes returned " + grid::hex(got) + ", folding every byte gives " + grid::hex(want), "{\"bytes\":4294967301,\"seed\":" + std::to_string(v0) + "}"); }
+            vx::tick();
+        }
+    }
+    munmap(p, n);
+    R.part("hashes of one chunk of 2^32+5 bytes (untouched address space, four bytes set) against the closed form", done, done);
+#endif
+}
+
 static void hash_all(bool thorough)
 {
     uint64_t n = 0, nt = 0;
@@ -494,6 +527,7 @@ int main(int argc, char **argv)
         reuse_all(thorough);
         inplace_all();
         hash_all(thorough);
+        if (R.shard.idx == R.shard.n - 1) { hash_huge(); }
         R.finish(true, "every listed domain enumerated completely");
     }, 120.0);
 }
